@@ -396,6 +396,9 @@ def run_check(prop: str, tier: str, replay: Optional[str]) -> int:
     import logging
 
     logging.disable(logging.CRITICAL)
+    import threading
+
+    threading.excepthook = lambda args: None  # worker threads re-raise after set_error; keep stderr readable
     mod = importlib.import_module(f"harness.corr.{prop.lower()}")
     ctx = Ctx(prop, tier, seed)
 
